@@ -522,22 +522,10 @@ def classifyGrp (c : Case) (spec : Res (List Row)) (r : Real) : String :=
 /-! (`null-typed-partition` (C02) — ORDER BY tie between sentinel NULL and Val::Null, `Empty` on a Null-typed column —
     was repaired in /repo d5d65c1 / 02c9cc0; its classifier has been removed.) -/
 
-/-- `topn-nullable-fused` (C05/C02): single ORDER BY key with a NULL in a partition that takes the top-n path. -/
-def topNNullableKey (c : Case) (r : Real) : Bool :=
-  match c.order with
-  | [(k, _)] =>
-      (splitRows r.split c.rows).any fun p =>
-        usesTopN c p && p.any (fun row => row.getD k .null == .null)
-  | _ => false
+/-! (`topn-nullable-fused` (C05) — top-n on a nullable narrow / dictionary key panicked — was repaired in /repo 082c667; its
+    classifier has been removed, the witness stays in the harness corpus.) -/
 
-/-- `topn-desc-nullable-string` (C05/C02): one DESC key over a string column with a NULL, in a partition on the top-n path. -/
-def topNDescString (c : Case) (r : Real) : Bool :=
-  match c.order with
-  | [(k, true)] =>
-      (splitRows r.split c.rows).any fun p =>
-        usesTopN c p && p.any (fun row => row.getD k .null == .null) &&
-          p.any (fun row => match row.getD k .null with | .str _ => true | _ => false)
-  | _ => false
+/-! (`topn-desc-nullable-string` (C05) was repaired in /repo bd933f4; classifier removed, witness kept in the corpus.) -/
 
 /-- `select-i64max-null` (C06): a projected integer equal to i64::MAX (the in-band NULL) is shown as NULL — in every layout.
     The answer equals the reference once every i64::MAX cell of the reference is read as NULL. -/
@@ -563,14 +551,20 @@ def nullColumnExtraRows (c : Case) (r : Real) : Bool :=
          | none => false)
   | _, _, _ => false
 
+/-- trigger of `null-column-nullable-filter-count`: some column the query shows or orders by is NULL in every row of a partition
+    in which a WHERE column has a NULL (nullable filter): its NullVecLike replacement is sized by the filter's data bytes. -/
+def nullColumnNullableFilter (c : Case) (r : Real) : Bool :=
+  let parts := (splitRows r.split c.rows).filter (fun p => !p.isEmpty)
+  (c.exprs.flatMap exprCols ++ c.order.map (·.1)).any fun k => parts.any fun p =>
+    p.all (fun row => row.getD k .null == .null) &&
+      ((c.pred.map exprCols).getD []).any (fun w => p.any (fun row => row.getD w .null == .null))
+
 def classifyOrdSel (c : Case) (r : Real) (_why : String) : String :=
   let c07 := classifyObs r.obs
   if c07 ≠ "" then c07
-  else if c.kind = .ord && topNNullableKey c r && (r.out = "err:canceled" || r.out = "panic") then "topn-nullable-fused"
   else if whereNullPartition c r && (r.out = "err:fatal" || r.out = "err:canceled" || r.out = "panic") then "where-null-partition-empty"
-  else if c.kind = .ord && topNDescString c r && (_why = "wrong-cut" || _why = "unsorted") then "topn-desc-nullable-string"
   else if i64MaxShownNull c r then "select-i64max-null"
-  else if nullColumnExtraRows c r then "null-column-nullable-filter-count"
+  else if nullColumnExtraRows c r || (nullColumnNullableFilter c r && (r.out = "err:canceled" || r.out = "panic" || r.out = "err:fatal")) then "null-column-nullable-filter-count"
   else ""
 
 /-! ### one case -/
